@@ -352,25 +352,29 @@ func runC15(t *testing.T, run *mc.Run) int {
 			}
 		}
 	})
-	// LOGIN record whose pid cannot be parsed
-	n++
-	var badpid string
-	bubble(t, func() {
-		r := startRead(0)
-		defer r.stop()
-		l := strings.Replace(bindLines("7"), "pid=4242", "pid=abc", 1)
-		r.offerLine(l + "\n")
-		vsleep(3 * time.Second)
-		var ste *sessiontracker.SessionTrackerError
-		switch {
-		case !r.returned:
-			badpid = "the audit processor keeps running after a LOGIN record with an unparsable pid"
-		case r.ret == nil || !errors.As(r.ret, &ste) || !ste.ParsePIDFailed():
-			badpid = fmt.Sprintf("returned %v, want the correlator's pid-parse failure", r.ret)
+	// LOGIN record whose pid cannot be parsed (not a decimal number: letters, other bases and literal syntaxes,
+	// digit separators, exponent, too large for any integer), with and without a login waiting for "that" pid
+	for _, tok := range []string{"abc", "0x61af", "0X10", "0b101", "0o17", "1_000", "1e3", "12x", "99999999999999999999999"} {
+		n++
+		var badpid string
+		bubble(t, func() {
+			r := startRead(0)
+			defer r.stop()
+			r.offerLogin(mkLogin(25007, "3")) // 0x61af read as a number would be this pid
+			l := strings.Replace(bindLines("7"), "pid=4242", "pid="+tok, 1)
+			r.offerLine(l + "\n")
+			vsleep(3 * time.Second)
+			var ste *sessiontracker.SessionTrackerError
+			switch {
+			case !r.returned:
+				badpid = "the audit processor keeps running after a LOGIN record with an unparsable pid"
+			case r.ret == nil || !errors.As(r.ret, &ste) || !ste.ParsePIDFailed():
+				badpid = fmt.Sprintf("returned %v, want the correlator's pid-parse failure", r.ret)
+			}
+		})
+		if badpid != "" {
+			viol("bad-pid", nil, "LOGIN record with pid="+tok, badpid)
 		}
-	})
-	if badpid != "" {
-		viol("bad-pid", nil, "LOGIN record with pid=abc", badpid)
 	}
 	// two deliveries in flight at once: a one-shot write failure is reported by the parser goroutine while
 	// the Read goroutine is busy handing a login to the correlator (blocked on the tracker, not parked in its
